@@ -47,6 +47,8 @@ CmpO == Flag("CMP_O")
 CmpP == Flag("CMP_P")
 CmpE == Flag("CMP_E")
 CmpV == Flag("CMP_V")
+\*   CMP_R  (C09) only the construction of the prover's RNG: build_rng, one rekey per commitment blinding, finalize
+CmpR == "CMP_R" \in DOMAIN IOEnv /\ IOEnv.CMP_R = "1"
 
 (* does a recorded transcript operation equal the operation the model performs? *)
 OpMatch(r, e) ==
@@ -74,10 +76,13 @@ Embeds(model, logged, i, j) ==
   ELSE IF OpMatch(logged[j], model[i]) THEN Embeds(model, logged, i + 1, j + 1)
   ELSE logged[j].o = "A" /\ Embeds(model, logged, i, j + 1)
 
+RngOps(ops) == SelectSeq(ops, LAMBDA op : op.o \in {"RB", "RK", "RF"})
 OpsMatch(logged, model) ==
-  CmpO => IF Embed THEN Embeds(model, logged, 1, 1)
-          ELSE /\ Len(logged) = Len(model)
-               /\ \A k \in 1 .. Len(logged) : OpMatch(logged[k], model[k])
+  /\ CmpO => IF Embed THEN Embeds(model, logged, 1, 1)
+             ELSE /\ Len(logged) = Len(model)
+                  /\ \A k \in 1 .. Len(logged) : OpMatch(logged[k], model[k])
+  /\ CmpR => /\ Len(RngOps(logged)) = Len(RngOps(model))
+             /\ \A k \in 1 .. Len(RngOps(logged)) : OpMatch(RngOps(logged)[k], RngOps(model)[k])
 
 NewOps(role) == SubSeq(tr'[role], Len(tr[role]) + 1, Len(tr'[role]))
 
@@ -139,6 +144,7 @@ EmittedProof == IF Has(Ev, "proof") THEN Ev.proof ELSE NoProof
 ProveOutcome ==
   \/ degen'                                   \* zero challenge: the code panics or errs; nothing is demanded
   \/ /\ CmpE => res'.P = Ev.res
+     /\ (CmpR /\ Ev.res = "ok") => Ev.ext_taken = 32      \* finalize keyed the RNG with 32 bytes of the caller's randomness
      /\ OpsMatch(Ev.tx, NewOps("P"))
      /\ (CmpP /\ res'.P = "ok") => (RngOk(out'.used) /\ wire' = out'.ref)
 
@@ -251,6 +257,18 @@ IdealCompleteness ==
 \* (on a toy curve up to Schwartz-Zippel luck: a flagged run is re-run with fresh randomness by the driver)
 IdealSoundness ==
   (obs.vres = "ok" /\ Honest) => Satisfied(cs.P)
+
+(* C05: an accepted, unaltered proof means the verifier's statement and context are the prover's: both roles performed the
+   same transcript operations (label, application data, commitments, their count, domain separators, every proof element),
+   the verifier's constraints are satisfied by the prover's assignment, and the bases agree (the value base only matters
+   once a gate or a constant/commitment weight uses it). *)
+VStatementHolds ==
+  /\ PLen(cs.P) = VLen(cs.V)
+  /\ \A q \in 1 .. Len(cs.V.cons) : PEval(cs.P, cs.V.cons[q]) = 0
+BasesAgree == env.V.Bb = env.P.Bb /\ (PLen(cs.P) >= 1 => env.V.B = env.P.B)
+StatementBinding ==
+  (obs.vres = "ok" /\ wire = sent /\ sent # NoProof /\ ~degen)
+     => (Shared(tr.P) = Shared(tr.V) /\ VStatementHolds /\ BasesAgree)
 
 \* properties of System evaluated in every state of every recorded run
 TraceInv == PendingClosed /\ RoleSync /\ Completeness
